@@ -50,8 +50,13 @@ func c09Run(c c09Case) (string, string) {
 	if c.Fault == "drop-data" {
 		drop = "data"
 	}
+	var dropFn func(stage, arg string) bool
+	if strings.HasPrefix(c.Fault, "droprcpt:") {
+		// the connection is lost when the RCPT command for this address arrives
+		dropFn = func(stage, arg string) bool { return stage == "rcpt" && strings.EqualFold(arg, c.Fault[9:]) }
+	}
 	for _, h := range []string{"mx.example.org", "mx.xn--e1afmkfd.xn--p1ai"} {
-		w.Add(peers.Script{Host: h, SMTPUTF8: c.UTF8Server, Reply: reply, DropAt: drop})
+		w.Add(peers.Script{Host: h, SMTPUTF8: c.UTF8Server, Reply: reply, DropAt: drop, Drop: dropFn})
 	}
 	zones := map[string]mockdns.Zone{
 		"example.org.":             {MX: []net.MX{{Host: "mx.example.org.", Pref: 10}}},
@@ -149,7 +154,7 @@ func c09InEarlier(h [][]string, a string) bool {
 func TestVerifC09(t *testing.T) {
 	r := vx.Start("C09", "remote")
 	defer r.Finish()
-	r.Rule("histories of 1-2 (quick) / 1-3 (thorough) consecutive transactions through one real remote target (pooled connections) to scripted MX servers for two recipient domains; recipient lists of 1-2 from {ASCII, upper-case, IDN U-label, A-label, non-ASCII local part, second mailbox}; next hop with / without SMTPUTF8; message with / without SMTPUTF8; faults {none, RCPT refused for one address, DATA 4xx, DATA 5xx, connection dropped at DATA}; oracle: the multiset of SetStatus keys of each transaction equals, as exact strings, the addresses for which AddRcpt returned nil in that transaction. Non-trivial: distinct cases with a fault, a conversion or a reused connection")
+	r.Rule("histories of 1-2 (quick) / 1-3 (thorough) consecutive transactions through one real remote target (pooled connections) to scripted MX servers for two recipient domains; recipient lists of 1-2 from {ASCII, upper-case, IDN U-label, A-label, non-ASCII local part, second mailbox}; next hop with / without SMTPUTF8; message with / without SMTPUTF8; faults {none, RCPT refused for one address, DATA 4xx, DATA 5xx, connection dropped at DATA, connection dropped at the RCPT of one address}; oracle: the multiset of SetStatus keys of each transaction equals, as exact strings, the addresses for which AddRcpt returned nil in that transaction. Non-trivial: distinct cases with a fault, a conversion or a reused connection")
 	if rp := r.Replay(); rp != nil {
 		var c c09Case
 		if json.Unmarshal(rp, &c) != nil {
@@ -195,7 +200,7 @@ func TestVerifC09(t *testing.T) {
 			}
 		}
 	}
-	faults := []string{"", "rcpt:a@example.org", "rcpt:b@xn--e1afmkfd.xn--p1ai", "data4", "data5", "drop-data"}
+	faults := []string{"", "rcpt:a@example.org", "rcpt:b@xn--e1afmkfd.xn--p1ai", "data4", "data5", "drop-data", "droprcpt:d@example.org"}
 	idx := 0
 	for _, h := range hists {
 		for _, f := range faults {
